@@ -258,7 +258,7 @@ claim("C09", "exploration", "TLC-generated kernel cases rendered in both surface
       "Every WaInt case (run-time form through functions with typed parameters, and constant form) for u16, int, uintptr, byte, rune (quick) / all integer type names (thorough) is rendered "
       "as a .wa and as a .wz program - type names, func/return, println, main from tables written from token/const_wz.go - and both are compiled and run; outputs must be equal "
       "(the Chinese runtime's 真/假 for true/false is normalised) and a program that compiles in one syntax must compile in the other.",
-      "Role G: level exploration. Control-flow keywords are only exercised by C29's .wz renderings. Observation: the .wz names 微整型/短整型 (i8/i16) have no .wa counterpart and make the backend exit with 'Unknown type'.",
+      "The loop programs of WaFlow.tla (for/if/else/continue/break, :=, ++, +=) are rendered in both syntaxes as well and must print the same lines. Role G: level exploration. Observation: the .wz names 微整型/短整型 (i8/i16) have no .wa counterpart and make the backend exit with 'Unknown type'.",
       "DESIGN.md section 4 (language kernel)")
 
 claim("C20", "model_checking", "TLA+ one-step semantics of RV64I+M from the ISA manual (Rv.tla on BV, evaluated by TLC) + one StepRun of the real emulator per case",
